@@ -55,6 +55,7 @@ type c19Obj struct {
 	typ    types.Type // the (named) struct type
 	fields map[*types.Var]c19Value
 	tag    string
+	havoc  string   // non-empty: a function that was not evaluated may have changed the object
 	sb     []string // contents, when the object is a strings.Builder
 	sbBad  bool     // something not concrete was written to it
 }
@@ -183,7 +184,7 @@ func c19Explore(m *c19Model, hooks c19Hooks, run func(in *c19Interp) c19Value) (
 				if e := recover(); e != nil {
 					a, ok := e.(c19Abort)
 					if !ok {
-						panic(e)
+						a = c19Abort{why: fmt.Sprintf("the evaluator failed on this code (%v)", e)}
 					}
 					if a.done {
 						p.done = true
@@ -381,7 +382,12 @@ func (in *c19Interp) field(v c19Value, f *types.Var, what string) c19Value {
 		if fv, ok := x.fields[f]; ok {
 			return fv
 		}
-		z := in.zero(f.Type())
+		var z c19Value
+		if x.havoc != "" {
+			z = in.opaque(f.Type(), f.Name()+" after "+x.havoc)
+		} else {
+			z = in.zero(f.Type())
+		}
 		x.fields[f] = z
 		return z
 	case *c19Opaque:
@@ -478,8 +484,7 @@ func (in *c19Interp) eval(e ast.Expr, env *c19Env) c19Value {
 		}
 		return in.opaque(in.info.TypeOf(e), in.src(e))
 	case *ast.SliceExpr:
-		in.eval(x.X, env)
-		return in.opaque(in.info.TypeOf(e), in.src(e))
+		return in.evalSlice(x, env)
 	case *ast.TypeAssertExpr:
 		v, ok := in.typeAssert(x, env)
 		if !ok {
@@ -766,7 +771,7 @@ func (in *c19Interp) evalBinary(x *ast.BinaryExpr, env *c19Env) c19Value {
 	// opaque integer ± constant keeps its identity
 	if x.Op == token.ADD || x.Op == token.SUB {
 		if lo, ok := l.(*c19Opaque); ok && rok {
-			if k, ok := constant.Int64Val(rc.v); ok && rc.v.Kind() == constant.Int {
+			if k, ok := c19Int64(rc.v); ok {
 				n := *lo
 				if x.Op == token.ADD {
 					n.off += k
@@ -778,7 +783,7 @@ func (in *c19Interp) evalBinary(x *ast.BinaryExpr, env *c19Env) c19Value {
 			}
 		}
 		if ro, ok := r.(*c19Opaque); ok && lok && x.Op == token.ADD {
-			if k, ok := constant.Int64Val(lc.v); ok && lc.v.Kind() == constant.Int {
+			if k, ok := c19Int64(lc.v); ok {
 				n := *ro
 				n.off += k
 				n.typ = t
@@ -1154,10 +1159,19 @@ func (in *c19Interp) callFunc(fi *FuncInfo, recv c19Value, args []c19Value) (res
 		in.depth--
 		if e := recover(); e != nil {
 			a, ok := e.(c19Abort)
-			if !ok || a.done || a.why == "panic" || in.depth == 0 {
+			if !ok {
+				a = c19Abort{why: fmt.Sprintf("the evaluator failed on this code (%v)", e)}
+				if in.depth == 0 {
+					panic(a)
+				}
+			} else if a.done || a.why == "panic" || in.depth == 0 {
 				panic(e)
 			}
 			in.notes = append(in.notes, fi.Name()+": "+a.why)
+			// what the callee did to the objects it was handed is not known either
+			for _, v := range append([]c19Value{recv}, args...) {
+				in.havoc(v, fi.Name()+" (not evaluated: "+a.why+")", 0)
+			}
 			res = in.opaqueResults(sig, "result of "+fi.Name()+" (not evaluated: "+a.why+")")
 		}
 	}()
